@@ -44,7 +44,7 @@ def build(pid, chk, tier, seed, m, wall, status, known_hit, reasons, n_unknown):
 
 
 def write(pid, ev):
-    d = os.path.join(ROOT, 'evidence')
+    d = os.environ.get('VERIF_EVIDENCE_DIR') or os.path.join(ROOT, 'evidence')
     os.makedirs(d, exist_ok=True)
     path = os.path.join(d, pid + '.json')
     try:
